@@ -41,7 +41,12 @@ EXPLANATION = ("Theorems (all about the definitions the driver runs): frequency 
                "collapse_removes_exactly (the internal nodes left are exactly those with frequency >= threshold, root-to-tip kept); "
                "stats_spec (mean, median/min/max off a sorted permutation, sample variance); argmaxFirst_spec; "
                "majority_consensus_unrooted_reaches/_exact (not-rooted records: normalised splits, prep's complement handling); "
-               "freq_never_stale (over every add/query history the cached tables answer as if recomputed from all trees counted so far); "
+               "freq_never_stale (over every history of additions / frequency queries / summary queries / age-table reads — merges are not "
+               "events of the model — the cached tables answer as if recomputed from all trees counted so far); lengths_spec (the summarised "
+               "list of a split is exactly its values over the counted records, in order); freq_weighted_contains (Nodup records: weighted "
+               "fraction of the trees containing the split); majority_consensus_reaches_ns + driver_majority_exact (namespaces with removed "
+               "members: all only has to contain the members' bits; composed with treeRecOf, countAll and the driver's own rooting flag; "
+               "Good (toH t) = distinct leaf taxa is assumed, not derived from the parser); "
                "scored_spec, score_spec, mcc_index_spec (scores are the sum / product of the scored splits' frequencies and the reported "
                "index is the first maximiser); parseTree_lenWF + collapse_keeps_root_tip_parsed (no side condition on parsed input).")
 
@@ -678,8 +683,22 @@ def gen_collapse(ctx, dendropy):
     if basal_split(src) is not None:
         return None
     tgt = c04.clone(dendropy, src)
-    tgt.encode_bipartitions()      # normal form only (no unifurcation, no basal bifurcation): the call under test re-encodes first, a no-op here
-    return dict(sample_case(tns, trees, use_w, thr, False), op="collapse", target=tree_rec(tgt))
+    # a drawing that is not in encoded form is used when encoding it keeps every root-to-tip distance: rooted, seed not a unifurcation
+    # (unifurcations below the seed are suppressed by the call, their lengths added to the child)
+    normal = rng.random() < 0.5 or tgt.is_rooted is not True or len(tgt.seed_node._child_nodes) < 2
+    if normal:
+        tgt.encode_bipartitions()  # normal form (no unifurcation, no basal bifurcation): the call under test re-encodes first, a no-op here
+    return dict(sample_case(tns, trees, use_w, thr, False), op="collapse", target=tree_rec(tgt), target_normal=normal)
+
+
+def internal_splits(tree):
+    """splits carried by internal edges once the tree is in encoded form, read off ANY drawing of it: splits of internal non-seed
+    nodes, minus the seed's own split and the splits of leaf edges (a unifurcation repeats the split below it; a dissolved basal
+    node repeats its sibling's)"""
+    nsp, _L = node_splits(tree)
+    leaf = {s for nd, s in nsp if not nd._child_nodes}
+    rootsplit = [s for nd, s in nsp if nd is tree.seed_node][0]
+    return {s for nd, s in nsp if nd._child_nodes and nd is not tree.seed_node} - leaf - {rootsplit}
 
 
 def run_collapse(ctx, dendropy, case, pending_c):
@@ -696,7 +715,7 @@ def run_collapse(ctx, dendropy, case, pending_c):
         before = root_tip(tgt)
         nsp, _L = node_splits(tgt)
         weak_leaf = any(fr.get(s, Fraction(0)) < thr_f for nd, s in nsp if not nd._child_nodes)
-        want_internal = sorted(s for nd, s in nsp if nd._child_nodes and nd is not tgt.seed_node and fr.get(s, Fraction(0)) >= thr_f)
+        want_internal = sorted(s for s in internal_splits(tgt) if fr.get(s, Fraction(0)) >= thr_f)
         if route == "TreeArray":
             ta = dendropy.TreeArray(taxon_namespace=tns, use_tree_weights=use_w)
             ta.add_trees(fresh_list(dendropy, tns, trees))
@@ -709,8 +728,11 @@ def run_collapse(ctx, dendropy, case, pending_c):
         except Exception as e:
             if not common.is_library_exception(e):
                 raise
-            got = "E"       # the call refuses (whatever the exception type); legitimate only when a leaf edge is below the threshold
-            if not weak_leaf:
+            got = "E"       # the call refuses; legitimate only when a leaf edge is below the threshold
+            if isinstance(e, (TypeError, AttributeError, IndexError, KeyError)):
+                # a refusal is raised deliberately; these escaping from inside the library are a crash, whatever the input
+                ctx.fail("collapse", "%s.collapse_edges_with_less_than_minimum_support crashed with %s: %s" % (route, type(e).__name__, str(e)[:100]), case)
+            elif not weak_leaf:
                 ctx.fail("collapse", "%s.collapse_edges_with_less_than_minimum_support refused (%s: %s) although no leaf edge is below the threshold" % (
                     route, type(e).__name__, str(e)[:100]), case)
         if got != "E":
@@ -721,7 +743,7 @@ def run_collapse(ctx, dendropy, case, pending_c):
             if after != before:
                 ctx.fail("collapse", "%s: root-to-tip distances changed by collapsing weak edges: %s -> %s" % (
                     route, {k: str(v) for k, v in before.items()}, {k: str(v) for k, v in after.items()}), case)
-            got_internal = sorted(s for nd, s in node_splits(tgt)[0] if nd._child_nodes and nd is not tgt.seed_node)
+            got_internal = sorted(internal_splits(tgt))
             if got_internal != want_internal:
                 ctx.fail("collapse", "%s: internal edges left after collapsing below %s: %s, those with frequency >= threshold: %s" % (
                     route, thr, got_internal, want_internal), case)
@@ -1285,7 +1307,7 @@ def run_case(ctx, dendropy, case, pending, pending_c):
 def run(ctx):
     dendropy = __import__("dendropy")
     rng = ctx.rng
-    ctx.set_budget(40, 600)
+    ctx.set_budget(30, 600)
     pending, pending_c = [], []
     for _ in range(ctx.pick(1500, 30000)):
         if ctx.out_of_time():
